@@ -129,8 +129,33 @@ def r2_network_config(chk: Check) -> None:
     sess = P.func("engine/context.py:EngineContext.session")
     svars = defined_by(sess, "$v = requests.Session()")
     if not svars:
+        # chained form `self._session = session = requests.Session()`
+        for a in walk_body(sess.node):
+            if isinstance(a, ast.Assign) and unparse(a.value) == "requests.Session()":
+                svars = [t.id for t in a.targets if isinstance(t, ast.Name)]
+                if svars:
+                    break
+    if not svars:
         raise Undecided("requests.Session() construction not found in EngineContext.session")
     sv = svars[0]
+    # PUBLISH-AFTER-INIT: the session is shared by all worker threads; it must not become reachable from `self` before
+    # its configuration (auth, headers, cert, verify, proxy) is complete
+    g_ = cfg_of(sess)
+    pubs = [a for a in walk_body(sess.node) if isinstance(a, ast.Assign) and any(isinstance(t, ast.Attribute) and unparse(t.value) == "self" for t in a.targets) and (unparse(a.value) == sv or unparse(a.value) == "requests.Session()" or any(isinstance(t, ast.Name) and t.id == sv for t in a.targets))]
+    confs = [x for x in walk_body(sess.node) if (isinstance(x, ast.Assign) and any((isinstance(t, ast.Attribute) and unparse(t.value) == sv) or (isinstance(t, ast.Subscript) and unparse(t.value).startswith(sv + ".")) for t in x.targets)) or (isinstance(x, ast.Expr) and isinstance(x.value, ast.Call) and unparse(x.value.func).startswith(sv + "."))]
+    construct = "the session is published to `self` only when it is fully configured"
+    if not pubs:
+        chk.ok("C14.R2", sess, construct, "published by returning it (cached_property / caller)", sess.loc())
+    for a in pubs:
+        pn = list(g_.stmt_nodes_containing(a))
+        cn = [i for x in confs for i in g_.stmt_nodes_containing(x)]
+        w = g_.path(pn, cn) if pn and cn else None
+        if w is None or (len(w) == 1):
+            chk.ok("C14.R2", sess, construct, "no configuration statement follows the store", sess.loc(a))
+        else:
+            chk.violation("C14.R2", sess, construct,
+                          f"`{unparse(a, 60)}` makes the session visible to the other worker threads BEFORE `session.auth` / headers / cert are set: a worker that picks it up in that window sends its request without the user's credentials (`--auth`), with default TLS settings and without the configured headers",
+                          sess.loc(a), g_.describe_path(w, sess.module.relpath))
     NET = "self.config.network"
     for pat, needle, what in (
         (f"{sv}.auth = {NET}.auth", "session.auth = config.auth", "basic-auth credentials (--auth)"),
